@@ -307,7 +307,7 @@ def main():
 
     # 1. tables
     rc, broken_tables, table_shas, tout = regenerate_tables()
-    broken_tables = [b for b in broken_tables if b.split(":")[0] in cfg.get("tables", []) or not cfg.get("tables")]
+    broken_tables = [b for b in broken_tables if b.split(":")[0] in cfg.get("tables", [])]
     # 2. prove
     pr = prove(pid, cfg, thorough)
     proof_ok = not pr["errors"] and pr["obligations"] > 0 and pr["discharged"] == pr["obligations"] and not broken_tables
